@@ -18,6 +18,8 @@ pub struct C01 {
     pub rep: Report,
     pub case_seed: u64,
     last_supply: Option<Supply>,
+    /// transactions that have issued their own new token in this lineage (a token is "newly created" once)
+    issued: std::collections::HashSet<melstructs::TxHash>,
 }
 
 fn dn(d: &Denom) -> String {
@@ -53,21 +55,27 @@ fn supply_json(s: &Supply) -> serde_json::Value {
 }
 
 /// issuance a batch is allowed to perform, from its transactions alone
-fn batch_allowance(net: NetID, txs: &[Transaction]) -> Supply {
+fn batch_allowance(net: NetID, txs: &[Transaction], issued: &mut std::collections::HashSet<melstructs::TxHash>) -> Supply {
     let mut a: Supply = BTreeMap::new();
     for tx in txs {
         let h = tx.hash_nosigs();
+        // a transaction's own new token is issued by that transaction once: a second acceptance of the same transaction
+        // (which a transaction with inputs can never get, and a faucet must not get) creates nothing new
+        let first_time = issued.insert(h);
         let grandfathered = hex::encode(h.0 .0) == GRANDFATHERED_FAUCET;
         if tx.kind == TxKind::Faucet && (net != NetID::Mainnet || grandfathered) {
             // off-mainnet faucet (and the grandfathered one on mainnet): its outputs and its fee
             for o in &tx.outputs {
                 let d = if o.denom == Denom::NewCustom { Denom::Custom(h) } else { o.denom };
+                if o.denom == Denom::NewCustom && !first_time {
+                    continue;
+                }
                 *a.entry(d).or_default() += BigInt::from(o.value.0);
             }
             *a.entry(Denom::Mel).or_default() += BigInt::from(tx.fee.0);
         } else {
             for o in &tx.outputs {
-                if o.denom == Denom::NewCustom {
+                if o.denom == Denom::NewCustom && first_time {
                     *a.entry(Denom::Custom(h)).or_default() += BigInt::from(o.value.0);
                 }
             }
@@ -153,7 +161,7 @@ impl Monitor for C01 {
             return;
         }
         self.rep.count("accepted batches");
-        let mut allow = batch_allowance(w.net, &ev.txs);
+        let mut allow = batch_allowance(w.net, &ev.txs, &mut self.issued);
         // proof-of-work-backed ERG: at most the reference reward of each mint
         for tx in ev.txs.iter().filter(|t| t.kind == TxKind::DoscMint) {
             self.rep.count("accepted DoscMint transactions");
@@ -306,9 +314,62 @@ impl Monitor for C01 {
 }
 
 pub fn new_monitor() -> C01 {
-    let mut m = C01 { rep: Report::new("C01"), case_seed: 0, last_supply: None };
-    m.rep.rule = "cases = every accepted batch and every sealed block of random histories (all transaction kinds, dependent/shuffled batches, every spelling of pool names, wrong-kind pool data, values 1..2^120 (one history in six with mostly huge amounts and many swaps per block), custom/test/main networks at fabricated heights); the supply vector (coins + pool reserves by the slot's canonical denominations + fee pool + tips) is recomputed from hooked snapshots before/after each batch and around each of the 7 sealing phases and its increase per denomination must not exceed the allowance computed from the inputs alone (faucet, new custom token, liquidity minted for a named deposit, reference peg nudge, TIP-909 schedule; bootstrap of built-in pools counts as genesis). Non-trivial = batch with a non-faucet member, or block with a pool request or proposer action; distinct by member hashes".into();
+    let mut m = C01 { rep: Report::new("C01"), case_seed: 0, last_supply: None, issued: Default::default() };
+    m.rep.rule = "cases = every accepted batch and every sealed block of random histories (all transaction kinds, dependent/shuffled batches, every spelling of pool names, wrong-kind pool data, values 1..2^120 (one history in six with mostly huge amounts and many swaps per block), custom/test/main networks at fabricated heights); the supply vector (coins + pool reserves by the slot's canonical denominations + fee pool + tips) is recomputed from hooked snapshots before/after each batch and around each of the 7 sealing phases and its increase per denomination must not exceed the allowance computed from the inputs alone (faucet, a transaction's own new token - once per transaction -, liquidity minted for a named deposit, reference peg nudge, TIP-909 schedule; bootstrap of built-in pools counts as genesis). Non-trivial = batch with a non-faucet member, or block with a pool request or proposer action; distinct by member hashes".into();
     m
+}
+
+/// A transaction without inputs and without a fee (possible at multiplier 0) whose only output is its own new token: if it
+/// is let in at all it can be let in again, because nothing it consumes is gone. Applied, its coin moved on, applied again.
+fn issuer_replay(w: &mut World, mon: &mut C01) {
+    use bytes::Bytes;
+    use melstructs::{BlockHeight, CoinData, CoinDataHeight, CoinValue};
+    let dest = w.owners[0].addr_new;
+    let t = Transaction {
+        kind: TxKind::Normal,
+        inputs: vec![],
+        outputs: vec![CoinData { covhash: dest, value: CoinValue(1000 + w.rng.below(1 << 40) as u128), denom: Denom::NewCustom, additional_data: Bytes::new() }],
+        fee: CoinValue(0),
+        covenants: vec![],
+        data: Bytes::from(w.rng.bytes(6)),
+        sigs: vec![],
+    };
+    mon.rep.count("input-less token issuers offered");
+    let ev = w.apply_batch(vec![t.clone()], vec!["normal+hostile:no-inputs,new-token-only".into()]);
+    mon.on_batch(w, &ev);
+    if !ev.accepted() || w.dead {
+        return;
+    }
+    mon.rep.count("input-less token issuers accepted");
+    let sev = w.seal_next(None);
+    mon.on_seal(w, &sev);
+    if w.dead {
+        return;
+    }
+    let coin = (t.output_coinid(0), CoinDataHeight { coin_data: CoinData { covhash: dest, value: t.outputs[0].value, denom: Denom::Custom(t.hash_nosigs()), additional_data: Bytes::new() }, height: BlockHeight(sev.height) });
+    let mut ins = w.pick_inputs(&[Denom::Mel], 0);
+    if ins.is_empty() {
+        return;
+    }
+    ins.push(coin);
+    w.learn_tx(&t);
+    if let Some(mv) = w.complete(TxKind::Normal, ins, vec![], vec![], 0) {
+        let ev = w.apply_batch(vec![mv], vec!["normal".into()]);
+        mon.on_batch(w, &ev);
+        if w.dead {
+            return;
+        }
+        let sev = w.seal_next(None);
+        mon.on_seal(w, &sev);
+        if w.dead {
+            return;
+        }
+        let ev = w.apply_batch(vec![t], vec!["normal+hostile:no-inputs,new-token-only,replayed".into()]);
+        mon.on_batch(w, &ev);
+        if ev.accepted() {
+            mon.rep.count("input-less token issuers accepted a second time");
+        }
+    }
 }
 
 pub fn run(p: &Params) -> Report {
@@ -329,6 +390,7 @@ pub fn run(p: &Params) -> Report {
         }
         mon.case_seed = case_seed;
         mon.last_supply = None;
+        mon.issued.clear();
         let mut w = World::random(case_seed);
         w.profile.swap = 22;
         w.profile.deposit = 12;
@@ -351,6 +413,9 @@ pub fn run(p: &Params) -> Report {
             w.profile.hostile = 4;
             w.profile.max_batch = 10;
             mon.rep.count("whale histories");
+        }
+        if case % 6 == 2 && w.fee_multiplier() == 0 {
+            issuer_replay(&mut w, &mut mon);
         }
         let blocks = 5 + (case % 12) as usize;
         run_history(&mut w, blocks, &mut [&mut mon]);
